@@ -295,6 +295,7 @@ func c19Judge(run *ev.Run, key string, calls []any, v c19Value, cl *svc.CLog, se
 		run.Violation(key+"/client-error", fmt.Sprintf("client received %v (details %d), recovery function returned data_loss: recovered #1 with 1 detail", cl.Err, len(ce.Details())), detail)
 		return
 	}
+	run.Sample(map[string]any{"case": detail, "recovered_value": fmt.Sprintf("%#v", got), "client_error": errStr(cl.Err)})
 	if same, why := gen.SameSeq(cl.Msgs, sent); !same {
 		run.Violation(key+"/messages", "messages sent before the panic were not delivered before the error: "+why, detail)
 	}
